@@ -35,7 +35,7 @@ LEVEL_TEXT = (
 LEVEL_NOTE = "Differential oracle between implementation runs plus the closed-form model for the conditioning filter. Finite alphabets; <= 5 time steps."
 TOL = 1e-9
 EXTRAS = ([], [("p", 1)], [("p", 2)], [("p", 2), ("q", 2)])
-SHAPES = {0: [("scalar", "scalar"), ("t", "scalar")], 1: [("scalar", "scalar"), ("tp", "p")], 2: [("scalar", "scalar"), ("pt", "p")], 3: [("scalar", "scalar"), ("qp", "tq")]}
+SHAPES = {0: [("scalar", "scalar"), ("t", "scalar"), ("T", "scalar")], 1: [("scalar", "scalar"), ("tp", "p")], 2: [("scalar", "scalar"), ("pt", "p")], 3: [("scalar", "scalar"), ("qp", "tq")]}
 
 
 def bounds(tier):
@@ -150,6 +150,8 @@ def run_unit(u):
                 if tier == "quick" and ei == 1 and (pi > 0 or qi in (0, 2)):
                     continue
                 if tier == "quick" and ei == 0 and pi > 0 and qi in (0, 2):
+                    continue
+                if tier == "quick" and ei == 0 and pi == 2 and qi != 1:
                     continue
                 imps = [f"imp:{t}:0" for t in range(n)] if tier == "thorough" else ["imp:0:0", f"imp:{n-1}:0"]
                 jobs = [("A", drv, "plain") for drv in DRV_A + imps]
